@@ -294,6 +294,112 @@ def run_sparse(c):
     return Result(out, {"sparse_family_location_checks": n}, digest([c]), substates=n, nontrivial=n)
 
 
+# ---- masters that disagree on how a glyph is built; a non-default layer compiled on its own ---------
+
+def _abar_master(stem, composite, bar_extra=0):
+    g = {
+        ".notdef": {"width": 500},
+        "A": {"width": 608, "unicodes": [0x41], "contours": [B.box(96, 0, 96 + stem, 704)]},
+        "_bar": {"width": 608, "contours": [B.box(48, 304, 560, 304 + stem // 2 + bar_extra)]},
+    }
+    if composite:
+        g["Abar"] = {"width": 608, "unicodes": [0x23A], "components": [("A", (1, 0, 0, 1, 0, 0)),
+                                                                        ("_bar", (1, 0, 0, 1, 0, 0))]}
+    else:  # the designer decomposed it in this master
+        g["Abar"] = {"width": 608, "unicodes": [0x23A],
+                     "contours": [B.box(96, 0, 96 + stem, 704), B.box(48, 304, 560, 304 + stem // 2 + bar_extra)]}
+    return {"glyphs": g, "order": [".notdef", "A", "Abar", "_bar"]}
+
+
+def _plain_render(tt, name):
+    gs = tt.getGlyphSet()
+    pen = DecomposingRecordingPen(gs)
+    gs[name].draw(pen)
+    return sorted(canon_contour(cyc) for cyc in R.recording_to_cycles(pen.value))
+
+
+def _compare_fonts(viols, feat, label, ref, got, skipped=("_bar",)):
+    n = 0
+    want_order = [g for g in ref.getGlyphOrder() if g not in skipped]
+    if got.getGlyphOrder() != want_order:
+        viols.append(violation("glyph-order", feat, font=label, expected=want_order, observed=got.getGlyphOrder()))
+        return 0
+    for g in want_order:
+        n += 1
+        if _plain_render(ref, g) != _plain_render(got, g):
+            viols.append(violation("rendering-changed", feat, font=label, glyph=g, expected=_plain_render(ref, g),
+                                   observed=_plain_render(got, g)))
+        if ref["hmtx"][g][0] != got["hmtx"][g][0]:
+            viols.append(violation("advance-changed", feat, font=label, glyph=g))
+    return n
+
+
+def run_hetero(c):
+    """'Abar' is [A, _bar] in some masters and plain contours in the others; '_bar' is not exported."""
+    import ufo2ft
+
+    def masters():
+        return [_abar_master(80 + 80 * i, composite=(i in c["composite_in"])) for i in range(c["n"])]
+
+    def build(skip):
+        specs = masters()
+        if c["fn"] == "ufos":
+            fonts = [B.build_font(sp) for sp in specs]
+            kw = {"skipExportGlyphs": list(skip)} if skip else {}
+            return list(ufo2ft.compileInterpolatableTTFs(fonts, useProductionNames=False, convertCubics=False, **kw))
+        ds = B.build_designspace(
+            [{"name": "Weight", "tag": "wght", "min": 0, "default": 0, "max": 100 * (c["n"] - 1)}],
+            [{"spec": sp, "location": {"Weight": 100 * i}, "name": f"m{i}"} for i, sp in enumerate(specs)],
+            lib={"public.skipExportGlyphs": list(skip)} if skip else {})
+        fn = ufo2ft.compileInterpolatableTTFsFromDS if c["fn"] == "ds-ttf" else ufo2ft.compileInterpolatableOTFsFromDS
+        kw = {"convertCubics": False} if c["fn"] == "ds-ttf" else {}  # straight lines only
+        return [s.font for s in fn(ds, useProductionNames=False, **kw).sources]
+    feat = {"family": "masters-disagree", "fn": c["fn"], "composite_in": c["composite_in"], "n": c["n"]}
+    viols, n = [], 0
+    ref = [O.reload(f) for f in build(())]
+    try:
+        got = [O.reload(f) for f in build(("_bar",))]
+    except Exception as e:
+        return Result([violation("compile-failed-with-skip", dict(feat, type=type(e).__name__), message=str(e)[:300])],
+                      {"hetero_master_checks": 0}, "failed", 1, False, 1)
+    for i, (r, g) in enumerate(zip(ref, got)):
+        n += _compare_fonts(viols, feat, f"master{i}", r, g)
+    return Result(_dedup(viols), {"hetero_master_checks": n}, digest([c, n]), substates=max(n, 1), nontrivial=1)
+
+
+def run_layer(c):
+    """A non-default layer compiled on its own (layerName=...) with a skip list: the skipped component's
+    content must come from THAT layer."""
+    import ufo2ft
+    spec = _abar_master(80, True)
+    spec["layers"] = {"bold": {"glyphs": {k: v for k, v in _abar_master(160, True, bar_extra=32)["glyphs"].items()}}}
+
+    def build(skip):
+        sp = dict(spec)
+        kw = {}
+        if skip and c["seam"] == "arg":
+            kw["skipExportGlyphs"] = list(skip)
+        elif skip:
+            sp["lib"] = {"public.skipExportGlyphs": list(skip)}
+        font = B.build_font(sp, c.get("module", "ufoLib2"))
+        fn = ufo2ft.compileTTF if c["flavour"] == "ttf" else ufo2ft.compileOTF
+        return O.reload(fn(font, useProductionNames=False, layerName=c["layer"], **kw))
+    feat = {"family": "layer", "flavour": c["flavour"], "seam": c["seam"], "layer": c["layer"]}
+    viols = []
+    n = _compare_fonts(viols, feat, "font", build(()), build(("_bar",)))
+    return Result(_dedup(viols), {"layer_compile_checks": n}, digest([c, n]), substates=max(n, 1), nontrivial=1)
+
+
+def _dedup(viols):
+    seen, out = set(), []
+    for v in viols:
+        k = (v["kind"], str(sorted(v["features"].items())))
+        if k not in seen:
+            seen.add(k)
+            out.append(v)
+    return out
+
+
 class C13(Property):
     id = "C13"
     rule = ("state = (component graph of 4 outline glyphs + a mark, flavour, seam); every state compiles all "
@@ -336,12 +442,26 @@ class C13(Property):
             for locations in ("full", "partial"):
                 for pos in ("second", "last"):
                     out.append([{"family": "sparse", "axes": axes, "locations": locations, "sparse_pos": pos}])
+        for fn in ("ufos", "ds-ttf", "ds-otf"):
+            for n, subsets in ((2, ([0], [1], [0, 1])), (3, ([0], [1], [2], [0, 2], [1, 2]))):
+                for comp_in in subsets:
+                    out.append([{"family": "hetero", "fn": fn, "n": n, "composite_in": comp_in}])
+        for fl in ("ttf", "otf"):
+            for seam in ("arg", "lib"):
+                for layer in (None, "bold"):
+                    for module in ("ufoLib2", "defcon"):
+                        out.append([{"family": "layer", "flavour": fl, "seam": seam, "layer": layer,
+                                     "module": module}])
         return out
 
     def run(self, h, b):
         c = h[0]
         if c.get("family") == "sparse":
             return run_sparse(c)
+        if c.get("family") == "hetero":
+            return run_hetero(c)
+        if c.get("family") == "layer":
+            return run_layer(c)
         spec = make_spec(c["graph"])
         static = c["flavour"] in ("ttf", "otf")
         comp = (lambda skip: compile_static(spec, c["flavour"], skip, c["seam"], c.get("module", "ufoLib2"))) \
